@@ -179,6 +179,9 @@ func FuncBuilder(env *Zlisp, name string,
 	sfun := gen.env.MakeFunction(gen.funcname, nargs, varargs, nil, orig)
 	sfun.SetFormalSymbols(argsyms)
 	gen.knownFunctions[symN.number] = sfun
+	if rebindsOwnName(funcName, funcargs, body) {
+		gen.funcname = ""
+	}
 
 	//VPrintf("\n in buildSexpFun(): DumpFunction just before %v args go onto stack\n", len(argsyms))
 	if Working {
